@@ -214,6 +214,8 @@ structure OutPkt where
   seq : Nat
   ack : Nat
   payload : Bytes
+  /-- a UDP datagram of the QUIC export (`flags`, `seq`, `ack` unused) rather than a TCP segment -/
+  udp : Bool
   deriving Repr, DecidableEq
 
 def portmapFn (pm : List (Int × Int)) (p : Nat) : Option Nat :=
@@ -222,8 +224,8 @@ def portmapFn (pm : List (Int × Int)) (p : Nat) : Option Nat :=
 def addressed (o : MainLoop.Opts) (c : Conn) (f : TcpOut.Frame) : OutPkt :=
   let sp := TcpOut.exportedServerPort o.keep (portmapFn o.portmap) c.server.port
   let s : MainLoop.Endpoint := ⟨c.server.ip, sp⟩
-  if f.fromServer then ⟨f.ts, c.serverMac, c.clientMac, s, c.client, c.ipv6, f.flags, f.seq, f.ack, f.payload⟩
-  else ⟨f.ts, c.clientMac, c.serverMac, c.client, s, c.ipv6, f.flags, f.seq, f.ack, f.payload⟩
+  if f.fromServer then ⟨f.ts, c.serverMac, c.clientMac, s, c.client, c.ipv6, f.flags, f.seq, f.ack, f.payload, false⟩
+  else ⟨f.ts, c.clientMac, c.serverMac, c.client, s, c.ipv6, f.flags, f.seq, f.ack, f.payload, false⟩
 
 /-- `Session.decrypt()`: `none` = `OutputBuilder.build` raised (a record without carriers; unreachable, see
     `Props.C05.metadata_is_overlap`) -/
